@@ -51,7 +51,7 @@ type Case struct {
 }
 
 var faultKinds = []simfs.Kind{simfs.KWriteAt, simfs.KWriteAt, simfs.KSyncFile, simfs.KSyncFile, simfs.KSyncDir, simfs.KCreate, simfs.KCreate, simfs.KUnlink,
-	simfs.KCommitState, simfs.KCommitState, simfs.KSetStable, simfs.KListDir, simfs.KOpenReader, simfs.KOpenWriter, simfs.KLoad}
+	simfs.KCommitState, simfs.KCommitState, simfs.KSetStable, simfs.KListDir, simfs.KOpenReader, simfs.KOpenWriter, simfs.KLoad, simfs.KReadAt}
 
 func genCase(t *rapid.T) Case {
 	if rapid.IntRange(0, 99).Draw(t, "template") < 35 {
@@ -145,6 +145,11 @@ type injector struct {
 	plan   []resolved
 	healed bool
 	hits   int
+	// inOpen: an Open is in progress. Read faults are injected only then (recovery reading the
+	// files): a GetLog that fails on an injected read error says nothing about the property, an
+	// Open that reads past one and presents a shortened log does.
+	inOpen   bool
+	openRead int // ReadAt calls seen during Opens (the ordinal space of ReadAt faults)
 }
 
 type resolved struct {
@@ -161,12 +166,20 @@ func (in *injector) hook(ev simfs.Event) (int, error) {
 	if in.healed {
 		return -1, nil
 	}
+	ord := ev.Ord
+	if ev.Kind == simfs.KReadAt {
+		if !in.inOpen {
+			return -1, nil
+		}
+		in.openRead++
+		ord = in.openRead
+	}
 	for i := range in.plan {
 		p := &in.plan[i]
 		if p.kind != ev.Kind {
 			continue
 		}
-		if ev.Ord == p.ord || (p.active && ev.Ord > p.ord) {
+		if ord == p.ord || (p.active && ord > p.ord) {
 			if p.mode == "persistent" {
 				p.active = true
 			}
@@ -280,12 +293,27 @@ type env struct {
 	lastMin        uint64
 	lastMax        uint64
 	cls            map[string]bool
+	in             *injector
+	dryOpenReads   int                  // fault-free pass: ReadAt calls made inside Opens
 	opCounts       []map[simfs.Kind]int // fault-free pass: calls per kind made before op #i (one more entry for the end)
 	ledger         *common.Failure
 	format         *common.Failure // C09 along failure paths
 }
 
 func (e *env) open() error {
+	if e.in != nil {
+		e.in.mu.Lock()
+		e.in.inOpen = true
+		e.in.mu.Unlock()
+		defer func() {
+			e.in.mu.Lock()
+			e.in.inOpen = false
+			e.in.mu.Unlock()
+		}()
+	} else {
+		e.dryOpenReads -= e.fs.Counts()[simfs.KReadAt]
+		defer func() { e.dryOpenReads += e.fs.Counts()[simfs.KReadAt] }()
+	}
 	w, err := kit.Cfg{SegSize: e.c.SegSize, FS: e.fs}.Open()
 	if err != nil {
 		return err
@@ -321,6 +349,7 @@ func (e *env) resolveDel(op FOp) (uint64, uint64, bool) {
 
 // run executes the workload with the given hook (nil for the counting pass).
 func (e *env) run(in *injector) *common.Failure {
+	e.in = in
 	if in != nil {
 		e.fs.SetHook(in.hook)
 	}
@@ -504,6 +533,18 @@ func (e *env) run(in *injector) *common.Failure {
 			} else {
 				e.failedCalls++
 				e.cls["failed-set"] = true
+				if i%2 == 0 {
+					// the caller retries the very same Set (as raft would): if that returns nil the value
+					// must be there - whatever the first attempt left behind or remembered
+					if err2 := e.w.Set([]byte(key), val); err2 == nil {
+						e.stable[key] = val
+						e.cls["failed-set-retried"] = true
+						if got, gerr := e.w.Get([]byte(key)); gerr != nil || string(got) != string(val) {
+							return common.Failf("stable-ack-not-readable", "step %d: Set(%q,%x) failed (%v), the same Set retried returned nil, but Get returns %x (err %v)", i, key, val, err, got, gerr)
+						}
+						break
+					}
+				}
 				// a failed Set leaves the old value or the new one
 				if got, gerr := e.w.Get([]byte(key)); gerr == nil {
 					switch {
@@ -640,11 +681,14 @@ func runCaseFor(c Case, prop string) (res common.Result) {
 	aimed := false
 	for _, f := range c.Faults {
 		n := counts[simfs.Kind(f.Kind)]
+		if simfs.Kind(f.Kind) == simfs.KReadAt {
+			n = dry.dryOpenReads
+		}
 		if n == 0 {
 			continue
 		}
 		ord := 1 + f.Sel%n
-		if i := f.Op - 1; i >= 0 && i+1 < len(dry.opCounts) {
+		if i := f.Op - 1; i >= 0 && i+1 < len(dry.opCounts) && simfs.Kind(f.Kind) != simfs.KReadAt {
 			lo, hi := dry.opCounts[i][simfs.Kind(f.Kind)], dry.opCounts[i+1][simfs.Kind(f.Kind)]
 			if hi > lo {
 				ord = lo + 1 + f.Sel%(hi-lo)
